@@ -58,6 +58,16 @@ static inline myth_thread_t myth_sleep_stack_pop_th(myth_sleep_stack_t * s) {
 
 static inline int myth_mutex_unlock_body(myth_mutex_t * mutex);
 
+/* the worker running the caller; a synchronisation call may be the
+   very first call a program makes into the library (e.g. a signal on
+   a condition variable nobody waits on yet), so make sure there are
+   workers before asking which one we are on */
+static inline myth_running_env_t myth_sync_get_current_env(void) {
+  int _ = myth_ensure_init();
+  (void)_;
+  return myth_get_current_env();
+}
+
 MYTH_CTX_CALLBACK void myth_block_on_queue_cb(void *arg1,void *arg2,void *arg3) {
   myth_sleep_queue_t * q = arg1;
   myth_thread_t cur = arg2;
@@ -82,7 +92,7 @@ MYTH_CTX_CALLBACK void myth_block_on_queue_cb(void *arg1,void *arg2,void *arg3) 
 /* block the current thread on sleep_queue q */
 static inline void myth_block_on_queue(myth_sleep_queue_t * q,
 				       myth_mutex_t * m) {
-  myth_running_env_t env = myth_get_current_env();
+  myth_running_env_t env = myth_sync_get_current_env();
   myth_thread_t cur = env->this_thread;
   /* pop next thread to run */
   myth_thread_t next = myth_queue_pop(&env->runnable_q);
@@ -130,7 +140,7 @@ MYTH_CTX_CALLBACK void myth_block_on_stack_cb(void *arg1,void *arg2,void *arg3) 
 /* block the current thread on sleep_queue q */
 static inline void myth_block_on_stack(myth_sleep_stack_t * s,
 				       myth_mutex_t * m) {
-  myth_running_env_t env = myth_get_current_env();
+  myth_running_env_t env = myth_sync_get_current_env();
   myth_thread_t cur = env->this_thread;
   /* pop next thread to run */
   myth_thread_t next = myth_queue_pop(&env->runnable_q);
@@ -172,7 +182,7 @@ static inline void empty_loop(uint64_t dt) {
 static inline int myth_wake_one_from_queue(myth_sleep_queue_t * q,
 					   callback_on_wakeup_t callback,
 					   void * arg) {
-  myth_running_env_t env = myth_get_current_env();
+  myth_running_env_t env = myth_sync_get_current_env();
   /* wait until the queue becomes non-empty.
      necessary for example when lock/unlock
      are called almost at the same time on 
@@ -249,7 +259,7 @@ static inline int myth_wake_many_from_queue(myth_sleep_queue_t * q,
      alternatively, we could (i) dequeue all threads without
      waking them up and (ii) putting them in the run queue.
   */
-  myth_running_env_t env = myth_get_current_env();
+  myth_running_env_t env = myth_sync_get_current_env();
   /* wait until the queue becomes non-empty.
      necessary for example when lock/unlock
      are called almost at the same time on 
@@ -304,7 +314,7 @@ static inline int myth_wake_many_from_queue(myth_sleep_queue_t * q,
 static inline int myth_wake_if_any_from_queue(myth_sleep_queue_t * q,
 					      callback_on_wakeup_t callback,
 					      void * arg) {
-  myth_running_env_t env = myth_get_current_env();
+  myth_running_env_t env = myth_sync_get_current_env();
   myth_thread_t to_wake = myth_sleep_queue_deq_th(q);
   /* no threads sleeping, done */
   if (!to_wake) return 0;	/* I did not wake up any */
@@ -364,7 +374,7 @@ static inline int myth_wake_many_from_stack(myth_sleep_stack_t * s,
      alternatively, we could (i) dequeue all threads without
      waking them up and (ii) putting them in the run queue.
   */
-  myth_running_env_t env = myth_get_current_env();
+  myth_running_env_t env = myth_sync_get_current_env();
   /* wait until the queue becomes non-empty.
      necessary for example when lock/unlock
      are called almost at the same time on 
@@ -1078,7 +1088,7 @@ void myth_uncond_wait_cb(void *arg1,void *arg2,void *arg3) {
 }
 
 static inline int myth_uncond_wait_body(myth_uncond_t * u) {
-  myth_running_env_t env = myth_get_current_env();
+  myth_running_env_t env = myth_sync_get_current_env();
   myth_thread_t cur = env->this_thread;
   /* pop next thread to run */
   myth_thread_t next = myth_queue_pop(&env->runnable_q);
@@ -1102,7 +1112,7 @@ static inline int myth_uncond_wait_body(myth_uncond_t * u) {
 }
 
 static inline int myth_uncond_signal_body(myth_uncond_t * u) {
-  myth_running_env_t env = myth_get_current_env();
+  myth_running_env_t env = myth_sync_get_current_env();
   MYTH_VERIF_POINT(mythv_p_uncond_load, u->th);
   myth_thread_t to_wake = u->th;
   while (!to_wake) {
